@@ -68,7 +68,7 @@ def placed_events(ncmds):
 
 
 def listeners():
-    behav = st.lists(st.one_of(st.just("ok"), st.just("ok"), st.just("raise"), st.just("rm_self"),
+    behav = st.lists(st.one_of(st.just("ok"), st.just("ok"), st.just("raise"), st.just("raise0"), st.just("rm_self"),
                                st.integers(0, 4).map(lambda j: "rm:%d" % j),
                                st.integers(0, 4).map(lambda j: "add:%d" % j)), max_size=3)
     return st.lists(st.builds(lambda n, b, k: {"name": n, "behav": b, "kind": k},
@@ -233,6 +233,8 @@ class _Run(object):
             what = b[n] if n < len(b) else "ok"
             if what == "raise":
                 raise ValueError("listener %d raises on purpose" % i)
+            if what == "raise0":
+                raise NotImplementedError()         # an exception without arguments (bare assert, NotImplementedError)
             if what == "rm_self":
                 self.rm(i)
             elif what.startswith("rm:"):
@@ -486,7 +488,7 @@ def drive_events(case):
         res.label("form-" + f)
     if any(e["ev"]["first"] == "" and not e["ev"].get("tok", True) for e in case["events"]):
         res.label("event-with-nothing-after-name")
-    if any("raise" in l["behav"] for l in case["listeners"]):
+    if any("raise" in l["behav"] or "raise0" in l["behav"] for l in case["listeners"]):
         res.label("raising-listener")
     if any(l.get("kind") == "bound" for l in case["listeners"]):
         res.label("bound-method-listener")
